@@ -8,6 +8,7 @@ import Rare.Proofs.C09Gen
 import Rare.Proofs.C09Err
 import Rare.Proofs.C09WF
 import Rare.Proofs.C09WFB
+import Rare.Proofs.C09WFAll
 import Rare.Gen.Tables
 /-!
 Property C09 – template syntax: literals, escapes, quotes and nesting parse as documented.
@@ -409,6 +410,16 @@ theorem syntax_error_iff_malformed (reg : Registry) (opt : Bool) (t : List Char)
     refine ⟨fun hk => hne ⟨e, he, Or.inl hk⟩, fun hk => hne ⟨e, he, Or.inr (Or.inl hk)⟩,
       fun hk => hne ⟨e, he, Or.inr (Or.inr hk)⟩⟩
 
+/-- **No error at all iff well formed**, for registries whose builders never return an error value (`NoBuilderErr`:
+    e.g. any registry of pure functions – the probe registry of the correspondence; builders may still panic, then
+    `Compile` does not return): for EVERY template, `Compile`'s error list is empty iff the template is well formed.
+    (With builders that do report errors – bad arity, bad argument type – those `.func` errors come on top; the
+    parser-level kinds are exactly characterised by `compile_ok_iff_wellformed`.) -/
+theorem no_errors_iff_wellformed (reg : Registry) (opt : Bool) (hreg : NoBuilderErr reg) (t : List Char)
+    (stages : List Stage) (errs : List CErr) (h : compile reg opt t = .ok (stages, errs)) :
+    errs = [] ↔ WellFormed splitArgs (fun name => (reg name).isSome) t :=
+  errs_nil_iff reg opt hreg t stages errs h
+
 /-- The grammar is decidable, and the program that decides it – `wfB`, brace depth + statement bodies + splitter,
     recursing into the arguments of known functions; it never compiles anything – is what the correspondence op
     `wfck` runs against the real `Compile`'s `errors.Is` answers. -/
@@ -713,5 +724,13 @@ example : ¬ WellFormed splitArgs (fun n => n == ['a']) "{a".toList := by
   intro h
   cases h with
   | mk _ h1 _ => revert h1; decide
+
+/-- registries of pure functions satisfy `NoBuilderErr` -/
+example : NoBuilderErr sampleReg := by
+  intro name f args b h hb
+  simp only [sampleReg, pureRegistry] at h
+  split at h
+  · cases h; simp only [pureBuilder, Except.ok.injEq] at hb; subst hb; rfl
+  · cases h
 
 end Rare.C09
